@@ -63,10 +63,85 @@ var KnownIssues = map[string]bool{
 	"attr-prefix-sid-l2-service":         true,
 	"attr-mp-reach-no-nexthop":           true,
 	"attr-mp-reach-link-local-afi":       true,
+	"attr-prefix-sid-subtlv-count":       true,
+	"attr-prefix-sid-info-flags":         true,
+
+	"attr-ls-zero-value-dropped":         true,
+	"attr-ls-igp-metric-length":          true,
+	"attr-ls-adjacency-sid-fields":       true,
+	"attr-ls-local-router-id-duplicated": true,
+	"attr-ls-ctor-length":                true,
+	"attr-ls-peer-adjacency-sid-type":    true,
+	"attr-ls-igp-flags-fabricates-tlvs":  true,
+	"attr-ls-prefix-sid-dropped":         true,
+	"attr-ls-opaque-prefix-attr-dropped": true,
+	"attr-ls-flex-algo-dropped":          true,
 }
 
-// c18KnownNotes documents each key of KnownIssues.
-var c18KnownNotes = map[string]string{}
+// c18KnownNotes documents each key of KnownIssues: what input, what happens, which function.
+// The minimal reproducer of every key is the probe of the same name in c18Probes (run by
+// TestVerifC18Probes and replayable as {"test": "C18_attr"|"C18_nlri", "probe": key}).
+var c18KnownNotes = map[string]string{
+	"nlri-srpolicy-length-unit": "SRPolicyNLRI (every value): MarshalNLRI copies SRPolicyNLRI.Length, which is in octets (12/24), into api.SRPolicyNLRI.length; " +
+		"UnmarshalNLRI hands that number to bgp.NewSRPolicy, which takes bits and divides by 8 -> Length 1 or 3, and Serialize of the result panics " +
+		"(slice bounds out of range) - also through UnmarshalAttribute for MP_REACH/MP_UNREACH of the SR policy families.",
+	"nlri-flowspec-unknown-component": "FlowSpecNLRI with a component of a type the decoder does not know (FlowSpecUnknown, what the parser produces for types > 24): " +
+		"MarshalFlowSpecRules has no case for it and emits an empty api.FlowSpecRule, UnmarshalFlowSpecRules rejects that ('invalid flow spec component').",
+	"nlri-rtc-prefix-length": "RouteTargetMembershipNLRI whose prefix length is not the one NewRouteTargetMembershipNLRI derives (origin-AS-only /32 with AS 0, " +
+		"route target prefixes /33../95): api.RouteTargetMembershipNLRI has no length field, UnmarshalNLRI returns a /0 or /96 NLRI.",
+	"nlri-ls-multi-topo-descriptor": "BGP-LS Link / Prefix NLRI with a Multi-Topology Identifier descriptor TLV (263): LsLinkDescriptor/LsPrefixDescriptor.ParseTLVs " +
+		"and the API messages have no field for it (only the SRv6 SID NLRI has), MarshalLsLinkNLRI/MarshalLsPrefixV4NLRI/V6 drop the TLV although it is part of the NLRI key.",
+	"attr-aggregator-2octet-as": "AGGREGATOR built with a 2-octet AS (bgp.NewPathAttributeAggregator(uint16, addr), 6 octet value): api.AggregatorAttribute has no " +
+		"width, UnmarshalAttribute always builds the 4-octet form (8 octet value).",
+	"attr-extcomm-l2-attributes": "EXTENDED_COMMUNITIES containing Layer2AttributesExtended (EVPN layer 2 attributes, which ParseExtended produces): " +
+		"NewExtendedCommunitiesAttributeFromNative has no case -> MarshalPathAttributes fails with 'unsupported extended community' (toPathApi ignores the error and returns a path without attributes).",
+	"attr-ip6-extcomm-unknown": "IP6_EXTENDED_COMMUNITIES containing UnknownIP6Extended (what the decoder produces for an unknown type/sub-type): " +
+		"NewIP6ExtendedCommunitiesAttributeFromNative fails with 'invalid ipv6 extended community'.",
+	"attr-tunnel-srbsid-empty": "TUNNEL_ENCAP SR policy Binding SID sub-TLV without SID (length 2, legal per RFC 9830 and produced by the decoder): MarshalSRBSID emits an empty sid, " +
+		"UnmarshalSRBSID calls bgp.NewBSID(empty) which returns (nil, nil) and then b.Len() dereferences nil -> panic in UnmarshalAttribute.",
+	"attr-tunnel-srbsid-label-shift": "TUNNEL_ENCAP SR policy Binding SID sub-TLV with a 4 octet SID: MarshalSRBSID copies the wire octets (label already in the upper 20 bits), " +
+		"UnmarshalSRBSID passes them to bgp.NewBSID which shifts the value left by 12 again: label 100 (00064000) comes back as 64000000.",
+	"attr-tunnel-segment-list-no-weight": "TUNNEL_ENCAP SR policy Segment List sub-TLV without Weight sub-TLV (optional on the wire, the decoder leaves Weight nil): " +
+		"NewTunnelEncapAttributeFromNative dereferences sv.Weight -> panic in MarshalPathAttributes (reachable from ListPath/WatchEvent for a received route).",
+	"attr-prefix-sid-l2-service": "PREFIX_SID with an SRv6 L2 Service TLV (type 6): MarshalSRv6TLVs converts it to api l2_service, UnmarshalPrefixSID only knows l3_service " +
+		"('unknown or not implemented Prefix SID type').",
+	"attr-prefix-sid-subtlv-count": "PREFIX_SID SRv6 service TLV with a number of SRv6 Information sub-TLVs other than one: UnmarshalSubTLVs computes the TLV length as " +
+		"sum(sub-TLV length + 4), i.e. one reserved octet per sub-TLV instead of per TLV: 0 sub-TLVs -> length 0 (reserved octet missing), 2 sub-TLVs -> one octet too many.",
+	"attr-prefix-sid-info-flags": "PREFIX_SID SRv6 Information sub-TLV with non-zero SRv6 Service SID flags: MarshalSRv6SubTLVs always emits an empty api.SRv6SIDFlags, UnmarshalSubTLVs sets Flags 0.",
+	"attr-mp-reach-no-nexthop": "MP_REACH_NLRI without next hop for a family other than flowspec (bgp.NewPathAttributeMpReachNLRI(RF_OPAQUE, nlri), next hop length 0): " +
+		"NewMpReachNLRIAttributeFromNative renders the zero netip.Addr as the string 'invalid IP', which UnmarshalAttribute rejects.",
+	"attr-mp-reach-link-local-afi": "MP_REACH_NLRI with global + link-local IPv6 next hop for a family whose AFI is not IPv6 (RFC 8950 IPv4 families, L2VPN, LS, ...): " +
+		"NewMpReachNLRIAttributeFromNative emits both next hops, UnmarshalAttribute only reads next_hops[1] when the AFI is IPv6 - the link-local address is lost (32 -> 16 octet next hop).",
+	"attr-ls-zero-value-dropped": "BGP-LS attribute TLV whose value is the zero value (admin group 0, TE metric 0, bandwidth 0, IGP metric 0, delay 0, adjacency SID 0, empty opaque / SRLG): " +
+		"LsAttribute API fields have no presence, UnmarshalLsAttribute treats 0/empty as absent and the TLV disappears.",
+	"attr-ls-igp-metric-length":    "BGP-LS IGP Metric TLV in its 1 or 2 octet form (IS-IS small metric, OSPF): api has a plain number, NewLsTLVIGPMetric always builds the 3 octet form.",
+	"attr-ls-adjacency-sid-fields": "BGP-LS Adjacency SID TLV with flags, weight or a 4 octet index: PathAttributeLs.Extract keeps the SID only, NewLsTLVAdjacencySID emits flags 0 / weight 0 / 3 octet label.",
+	"attr-ls-local-router-id-duplicated": "BGP-LS IPv4/IPv6 Router-ID of Local Node TLV: PathAttributeLs.Extract stores it in Node and in Link, NewLsAttributeFromNative emits both, " +
+		"UnmarshalLsAttribute/NewLsAttributeTLVs build the TLV twice.",
+	"attr-ls-ctor-length": "BGP-LS IPv6 local/remote router-id, SR capabilities and SR local block TLVs: the API -> native direction uses bgp.NewLsAttributeTLVs, whose constructors " +
+		"set a wrong Length (verifgen.KnownCodecIssues ls-ctor-*), so the converted attribute no longer serialises ('LS TLV malformed').",
+	"attr-ls-peer-adjacency-sid-type": "BGP-LS Peer Adjacency SID TLV (1102): bgp.NewLsTLVPeerAdjacencySID, used by the API -> native direction, sets type 1099 (Adjacency SID) - verifgen.KnownCodecIssues ls-ctor-peer-adjacency-sid-type.",
+	"attr-ls-igp-flags-fabricates-tlvs": "BGP-LS IGP Flags TLV: when igp_flags is present UnmarshalLsAttribute also sets Prefix.Opaque and Prefix.SrPrefixSID to non-nil pointers, " +
+		"so NewLsAttributeTLVs adds an Opaque Prefix Attribute and a Prefix-SID TLV that were never there (and the latter does not serialise: ls-ctor-prefix-sid).",
+	"attr-ls-prefix-sid-dropped": "BGP-LS Prefix-SID TLV: NewLsAttributeFromNative emits sr_prefix_sid / sr_prefix_sids, UnmarshalLsAttribute only keeps sr_prefix_sid when igp_flags is present " +
+		"and NewLsAttributeTLVs never looks at SrPrefixSIDs; flags and algorithm are lost in any case.",
+	"attr-ls-opaque-prefix-attr-dropped": "BGP-LS Opaque Prefix Attribute TLV: UnmarshalLsAttribute only keeps prefix.opaque when igp_flags is present.",
+	"attr-ls-flex-algo-dropped": "BGP-LS Flexible Algorithm Definition / Flex-Algo Prefix Metric TLVs: converted to flex_algo_defs / fad_prefix_metrics and back into LsAttribute, " +
+		"but bgp.NewLsAttributeTLVs builds no TLV from FlexAlgoDefs / FadPrefixMetrics; the unsupported / unknown sub-TLVs of a FAD have no API field at all.",
+}
+
+func init() {
+	// VERIF_C18_UNMASK=key1,key2 (or "all") switches entries off without editing the file
+	for _, k := range strings.Split(os.Getenv("VERIF_C18_UNMASK"), ",") {
+		if k == "all" {
+			for x := range KnownIssues {
+				KnownIssues[x] = false
+			}
+		} else if _, ok := KnownIssues[k]; ok {
+			KnownIssues[k] = false
+		}
+	}
+}
 
 // ---------------------------------------------------------------------------
 // coverage bookkeeping: every concrete Go type the generators produce is
@@ -125,6 +200,7 @@ func c18Known(st *verifkit.Stats, f *verifkit.Failure, keys []string) *verifkit.
 		if on {
 			st.Exclude(k)
 			st.Label("known-issue/" + k)
+			c18Masked.Store(st, true)
 			return nil
 		}
 	}
@@ -175,6 +251,16 @@ func c18SurveyReport(t *testing.T) {
 	}
 }
 
+// c18Verdict tells (and resets) whether c18Known masked a failure of the current case.
+var c18Masked sync.Map // *verifkit.Stats -> bool
+
+func c18Verdict(st *verifkit.Stats) string {
+	if _, was := c18Masked.LoadAndDelete(st); was {
+		return "masked"
+	}
+	return "ok"
+}
+
 func guard(sig, what string, fn func()) (f *verifkit.Failure) {
 	defer func() {
 		if r := recover(); r != nil {
@@ -193,7 +279,8 @@ type c18Case struct {
 func drawC18(maxKind func() int) func(t *rapid.T) c18Case {
 	return func(t *rapid.T) c18Case {
 		return c18Case{
-			Kind:   rapid.IntRange(0, maxKind()-1).Draw(t, "kind"),
+			// rapid favours small and boundary numbers; the recipe scrambler spreads them evenly
+			Kind:   verifgen.NewSrc([]uint32{rapid.Uint32().Draw(t, "kind")}).Intn(maxKind()),
 			Recipe: rapid.SliceOfN(rapid.Uint32(), 40, 240).Draw(t, "recipe"),
 		}
 	}
@@ -410,6 +497,28 @@ func c18CheckAttr(a bgp.PathAttributeInterface, idsZero bool, st *verifkit.Stats
 	if err != nil || len(l) != 1 {
 		return verifkit.Failf("unmarshal-list", "UnmarshalPathAttributes refuses what UnmarshalAttribute accepts: %v", err)
 	}
+	// api.Path entry points: structured and binary attributes give the same native attribute
+	pl, err := GetNativePathAttributes(&api.Path{Pattrs: []*api.Attribute{m}})
+	if err != nil || len(pl) != 1 {
+		return verifkit.Failf("getnative-error", "GetNativePathAttributes refuses pattrs %v: %v", m, err)
+	}
+	if b, err := pl[0].Serialize(opts[0]); err != nil || !bytes.Equal(b, wire[0]) {
+		return verifkit.Failf("wire-mismatch", "%T: native wire %x, via GetNativePathAttributes(pattrs) %x (%v)", a, wire[0], b, err)
+	}
+	var bl []bgp.PathAttributeInterface
+	if f = guard("panic-getnative-binary", "GetNativePathAttributes(pattrs_binary)", func() {
+		bl, err = GetNativePathAttributes(&api.Path{PattrsBinary: [][]byte{wire[0]}})
+	}); f != nil {
+		f.Msg += fmt.Sprintf(" (pattrs_binary %x)", wire[0])
+		return f
+	}
+	if err != nil || len(bl) != 1 {
+		return verifkit.Failf("getnative-binary-error", "GetNativePathAttributes refuses pattrs_binary %x of a constructible %T: %v", wire[0], a, err)
+	}
+	st.SubEval(1)
+	if b, err := bl[0].Serialize(opts[0]); err != nil || !bytes.Equal(b, wire[0]) {
+		return verifkit.Failf("wire-mismatch-binary", "%T: native wire %x, via pattrs_binary %x (%v)", a, wire[0], b, err)
+	}
 	return nil
 }
 
@@ -429,13 +538,17 @@ func runC18Attr(c c18Case, st *verifkit.Stats) *verifkit.Failure {
 	if c18LsSurvey(st, a, f) {
 		return nil
 	}
-	return c18SurveyOr(st, what, c18Known(st, f, c18AttrShapes(a)))
+	f = c18SurveyOr(st, what, c18Known(st, f, c18AttrShapes(a)))
+	if f == nil {
+		st.Label("verdict/" + c18Verdict(st) + "/" + typeName(a))
+	}
+	return f
 }
 
 func TestVerifC18_attr(t *testing.T) {
 	verifkit.Run(t, "C18_attr", drawC18(c18NumAttrKinds), runC18Attr)
 	c18SurveyReport(t)
-	c18AttrCover.require(t, 5000, c18AttrExpected())
+	c18AttrCover.require(t, 20000, c18AttrExpected())
 }
 
 func FuzzVerifC18_attr(f *testing.F) {
@@ -643,13 +756,17 @@ func runC18NLRI(c c18Case, st *verifkit.Stats) *verifkit.Failure {
 	if c18NLRIComponents(n, lab) {
 		st.Nontrivial()
 	}
-	return c18SurveyOr(st, f.String()+"/"+c18NLRIInner(n), c18Known(st, c18CheckNLRI(f, n, st), c18NLRIShapes(f, n)))
+	fail := c18SurveyOr(st, f.String()+"/"+c18NLRIInner(n), c18Known(st, c18CheckNLRI(f, n, st), c18NLRIShapes(f, n)))
+	if fail == nil {
+		st.Label("verdict/" + c18Verdict(st) + "/" + c18NLRIInner(n))
+	}
+	return fail
 }
 
 func TestVerifC18_nlri(t *testing.T) {
 	verifkit.Run(t, "C18_nlri", drawC18(func() int { return len(verifgen.AllFamilies) }), runC18NLRI)
 	c18SurveyReport(t)
-	c18NLRICover.require(t, 5000, c18NLRIExpected())
+	c18NLRICover.require(t, 20000, c18NLRIExpected())
 }
 
 func FuzzVerifC18_nlri(f *testing.F) {
@@ -824,8 +941,26 @@ func c18AttrShapes(a bgp.PathAttributeInterface) (keys []string) {
 		}
 	case *bgp.PathAttributePrefixSID:
 		for _, t := range v.TLVs {
-			if sv, ok := t.(*bgp.SRv6ServiceTLV); ok && sv.Type == bgp.TLVTypeSRv6L2Service {
+			sv, ok := t.(*bgp.SRv6ServiceTLV)
+			if !ok {
+				continue
+			}
+			if sv.Type == bgp.TLVTypeSRv6L2Service {
 				add("attr-prefix-sid-l2-service")
+			}
+			if len(sv.SubTLVs) != 1 {
+				add("attr-prefix-sid-subtlv-count")
+			}
+			for _, st := range sv.SubTLVs {
+				if info, ok := st.(*bgp.SRv6InformationSubTLV); ok && info.Flags != 0 {
+					add("attr-prefix-sid-info-flags")
+				}
+			}
+		}
+	case *bgp.PathAttributeLs:
+		for _, t := range v.TLVs {
+			for _, k := range c18LsTLVShapes(t) {
+				add(k)
 			}
 		}
 	case *bgp.PathAttributeMpReachNLRI:
@@ -853,6 +988,71 @@ func c18AttrShapes(a bgp.PathAttributeInterface) (keys []string) {
 	return keys
 }
 
+// c18LsTLVShapes: the known lossy shapes of one TLV of the BGP-LS attribute.
+func c18LsTLVShapes(t bgp.LsTLVInterface) (keys []string) {
+	zero := func(b bool) {
+		if b {
+			keys = append(keys, "attr-ls-zero-value-dropped")
+		}
+	}
+	switch v := t.(type) {
+	case *bgp.LsTLVAdminGroup:
+		zero(v.AdminGroup == 0)
+	case *bgp.LsTLVTEDefaultMetric:
+		zero(v.Metric == 0)
+	case *bgp.LsTLVMaxLinkBw:
+		zero(v.Bandwidth == 0)
+	case *bgp.LsTLVMaxReservableLinkBw:
+		zero(v.Bandwidth == 0)
+	case *bgp.LsTLVUnidirectionalDelayVariation:
+		zero(v.DelayVariation == 0)
+	case *bgp.LsTLVUnidirectionalLinkDelay:
+		zero(v.Delay == 0 && !bgp.NewLsDelayMetricFlags(v.Flags).Anomalous)
+	case *bgp.LsTLVMinMaxUnidirectionalLinkDelay:
+		zero(v.MinDelay == 0 && v.MaxDelay == 0 && !bgp.NewLsDelayMetricFlags(v.Flags).Anomalous)
+	case *bgp.LsTLVOpaqueNodeAttr:
+		zero(len(v.Attr) == 0)
+	case *bgp.LsTLVOpaqueLinkAttr:
+		zero(len(v.Attr) == 0)
+	case *bgp.LsTLVSrlg:
+		zero(len(v.Srlgs) == 0)
+	case *bgp.LsTLVIGPMetric:
+		zero(v.Metric == 0)
+		if v.Length != 3 {
+			keys = append(keys, "attr-ls-igp-metric-length")
+		}
+	case *bgp.LsTLVAdjacencySID:
+		zero(v.SID == 0)
+		if v.Flags != 0 || v.Weight != 0 || v.Length != 7 {
+			keys = append(keys, "attr-ls-adjacency-sid-fields")
+		}
+	case *bgp.LsTLVLocalIPv4RouterID:
+		keys = append(keys, "attr-ls-local-router-id-duplicated")
+	case *bgp.LsTLVLocalIPv6RouterID:
+		keys = append(keys, "attr-ls-local-router-id-duplicated", "attr-ls-ctor-length")
+	case *bgp.LsTLVRemoteIPv6RouterID, *bgp.LsTLVSrCapabilities, *bgp.LsTLVSrLocalBlock:
+		keys = append(keys, "attr-ls-ctor-length")
+	case *bgp.LsTLVPeerAdjacencySID:
+		keys = append(keys, "attr-ls-peer-adjacency-sid-type")
+	case *bgp.LsTLVIGPFlags:
+		keys = append(keys, "attr-ls-igp-flags-fabricates-tlvs")
+	case *bgp.LsTLVPrefixSID:
+		keys = append(keys, "attr-ls-prefix-sid-dropped")
+	case *bgp.LsTLVOpaquePrefixAttr:
+		keys = append(keys, "attr-ls-opaque-prefix-attr-dropped")
+	case *bgp.LsTLVFlexAlgoDef, *bgp.LsTLVFADPrefixMetric:
+		keys = append(keys, "attr-ls-flex-algo-dropped")
+	}
+	return keys
+}
+
+func c18LsFlags(l int) bgp.BGPAttrFlag {
+	if l > 255 {
+		return bgp.BGP_ATTR_FLAG_OPTIONAL | bgp.BGP_ATTR_FLAG_EXTENDED_LENGTH
+	}
+	return bgp.BGP_ATTR_FLAG_OPTIONAL
+}
+
 // c18LsSurvey (survey mode only) splits a failing BGP-LS attribute into single-TLV attributes and
 // records the TLVs that fail on their own.
 func c18LsSurvey(st *verifkit.Stats, a bgp.PathAttributeInterface, f *verifkit.Failure) bool {
@@ -864,7 +1064,7 @@ func c18LsSurvey(st *verifkit.Stats, a bgp.PathAttributeInterface, f *verifkit.F
 	var all []string
 	for _, t := range ls.TLVs {
 		all = append(all, typeName(t))
-		one := &bgp.PathAttributeLs{PathAttribute: bgp.PathAttribute{Flags: ls.Flags, Type: ls.Type, Length: uint16(t.Len())}, TLVs: []bgp.LsTLVInterface{t}}
+		one := &bgp.PathAttributeLs{PathAttribute: bgp.PathAttribute{Flags: c18LsFlags(t.Len()), Type: ls.Type, Length: uint16(t.Len())}, TLVs: []bgp.LsTLVInterface{t}}
 		f1 := c18CheckAttr(one, true, verifkit.Scratch("C18_attr"))
 		if f1 != nil && len(c18AttrShapes(one)) == 0 {
 			n++
@@ -922,13 +1122,311 @@ func c18NLRIShapes(f bgp.Family, n bgp.NLRI) (keys []string) {
 func c18CapShapes(c bgp.ParameterCapabilityInterface) []string { return nil }
 
 // ---------------------------------------------------------------------------
-// expected coverage
+// minimal reproducers of the known issues
 // ---------------------------------------------------------------------------
 
-func c18AttrExpected() []string { return nil }
-func c18NLRIExpected() []string { return nil }
-func c18CapExpected() []string  { return nil }
+func c18LsAttrOf(tlvs ...bgp.LsTLVInterface) *bgp.PathAttributeLs {
+	l := 0
+	for _, t := range tlvs {
+		l += t.Len()
+	}
+	return &bgp.PathAttributeLs{PathAttribute: bgp.PathAttribute{Flags: c18LsFlags(l), Type: bgp.BGP_ATTR_TYPE_LS, Length: uint16(l)}, TLVs: tlvs}
+}
 
-var _ = netip.Addr{}
+func c18LsPrefixNLRIWithMT() bgp.NLRI {
+	local := bgp.NewLsTLVNodeDescriptor(&bgp.LsNodeDescriptor{Asn: 65000, IGPRouterID: "0000.0000.0001"}, bgp.LS_TLV_LOCAL_NODE_DESC)
+	desc := bgp.NewLsPrefixTLVs(&bgp.LsPrefixDescriptor{IPReachability: []netip.Prefix{netip.MustParsePrefix("10.0.0.0/24")}})
+	desc = append(desc, &bgp.LsTLVMultiTopoID{LsTLV: bgp.LsTLV{Type: bgp.LS_TLV_MULTI_TOPO_ID, Length: 2}, MultiTopoIDs: []uint16{2}})
+	v := &bgp.LsPrefixV4NLRI{LsNLRI: bgp.LsNLRI{NLRIType: bgp.LS_NLRI_TYPE_PREFIX_IPV4, ProtocolID: bgp.LS_PROTOCOL_ISIS_L2, Identifier: 1}, LocalNodeDesc: &local, PrefixDesc: desc}
+	b, _ := v.Serialize()
+	v.Length = uint16(len(b))
+	return &bgp.LsAddrPrefix{Type: bgp.LS_NLRI_TYPE_PREFIX_IPV4, Length: uint16(len(b)), NLRI: v}
+}
+
+func c18TunnelOf(st bgp.TunnelEncapSubTLVInterface) bgp.PathAttributeInterface {
+	_, _ = st.Serialize() // sets the sub-TLV length NewPathAttributeTunnelEncap relies on
+	return bgp.NewPathAttributeTunnelEncap([]*bgp.TunnelEncapTLV{bgp.NewTunnelEncapTLV(bgp.TUNNEL_TYPE_SR_POLICY, []bgp.TunnelEncapSubTLVInterface{st})})
+}
+
+type c18Probe struct {
+	test string // "C18_attr" or "C18_nlri"
+	attr func() bgp.PathAttributeInterface
+	fam  bgp.Family
+	nlri func() bgp.NLRI
+}
+
+func c18U32(v uint32) *uint32 { return &v }
+
+var c18Probes = map[string]c18Probe{
+	"nlri-srpolicy-length-unit": {test: "C18_nlri", fam: bgp.RF_SR_POLICY_IPv4, nlri: func() bgp.NLRI {
+		n, _ := bgp.NewSRPolicy(bgp.RF_SR_POLICY_IPv4, bgp.SRPolicyIPv4NLRILen, 1, 2, []byte{10, 0, 0, 1})
+		return n
+	}},
+	"nlri-flowspec-unknown-component": {test: "C18_nlri", fam: bgp.RF_FS_IPv4_UC, nlri: func() bgp.NLRI {
+		n, _ := bgp.NewFlowSpecUnicast(bgp.RF_FS_IPv4_UC, []bgp.FlowSpecComponentInterface{&bgp.FlowSpecUnknown{Value: []byte{25, 1}}})
+		return n
+	}},
+	"nlri-rtc-prefix-length": {test: "C18_nlri", fam: bgp.RF_RTC_UC, nlri: func() bgp.NLRI {
+		n := bgp.NewRouteTargetMembershipNLRI(65000, bgp.NewTwoOctetAsSpecificExtended(bgp.EC_SUBTYPE_ROUTE_TARGET, 100, 0, true))
+		n.Length = 64 // 65000:100:* (all route targets of AS 100)
+		return n
+	}},
+	"nlri-ls-multi-topo-descriptor": {test: "C18_nlri", fam: bgp.RF_LS, nlri: c18LsPrefixNLRIWithMT},
+	"attr-aggregator-2octet-as": {test: "C18_attr", attr: func() bgp.PathAttributeInterface {
+		a, _ := bgp.NewPathAttributeAggregator(uint16(65000), netip.MustParseAddr("10.0.0.1"))
+		return a
+	}},
+	"attr-extcomm-l2-attributes": {test: "C18_attr", attr: func() bgp.PathAttributeInterface {
+		return bgp.NewPathAttributeExtendedCommunities([]bgp.ExtendedCommunityInterface{&bgp.Layer2AttributesExtended{HasControlWord: true, Mtu: 1500}})
+	}},
+	"attr-ip6-extcomm-unknown": {test: "C18_attr", attr: func() bgp.PathAttributeInterface {
+		return bgp.NewPathAttributeIP6ExtendedCommunities([]bgp.ExtendedCommunityInterface{&bgp.UnknownIP6Extended{Type: 0x01, Value: make([]byte, 19)}})
+	}},
+	"attr-tunnel-srbsid-empty": {test: "C18_attr", attr: func() bgp.PathAttributeInterface {
+		return c18TunnelOf(&bgp.TunnelEncapSubTLVSRBSID{
+			TunnelEncapSubTLV: bgp.TunnelEncapSubTLV{Type: bgp.ENCAP_SUBTLV_TYPE_SRBINDING_SID, Length: 2}, BSID: &bgp.BSID{Value: []byte{}}})
+	}},
+	"attr-tunnel-srbsid-label-shift": {test: "C18_attr", attr: func() bgp.PathAttributeInterface {
+		b, _ := bgp.NewBSID([]byte{0, 0, 0, 100}) // label 100
+		return c18TunnelOf(&bgp.TunnelEncapSubTLVSRBSID{
+			TunnelEncapSubTLV: bgp.TunnelEncapSubTLV{Type: bgp.ENCAP_SUBTLV_TYPE_SRBINDING_SID, Length: 6}, BSID: b})
+	}},
+	"attr-tunnel-segment-list-no-weight": {test: "C18_attr", attr: func() bgp.PathAttributeInterface {
+		seg := &bgp.SegmentTypeA{TunnelEncapSubTLV: bgp.TunnelEncapSubTLV{Type: bgp.EncapSubTLVType(bgp.TypeA), Length: 6}, Label: 100 << 12}
+		return c18TunnelOf(&bgp.TunnelEncapSubTLVSRSegmentList{
+			TunnelEncapSubTLV: bgp.TunnelEncapSubTLV{Type: bgp.ENCAP_SUBTLV_TYPE_SRSEGMENT_LIST, Length: uint16(1 + seg.Len())},
+			Segments:          []bgp.TunnelEncapSubTLVInterface{seg}})
+	}},
+	"attr-prefix-sid-l2-service": {test: "C18_attr", attr: func() bgp.PathAttributeInterface {
+		return bgp.NewPathAttributePrefixSID(bgp.NewSRv6ServiceTLV(bgp.TLVTypeSRv6L2Service, bgp.NewSRv6InformationSubTLV(netip.MustParseAddr("2001:db8::1"), 17)))
+	}},
+	"attr-prefix-sid-subtlv-count": {test: "C18_attr", attr: func() bgp.PathAttributeInterface {
+		return bgp.NewPathAttributePrefixSID(bgp.NewSRv6ServiceTLV(bgp.TLVTypeSRv6L3Service,
+			bgp.NewSRv6InformationSubTLV(netip.MustParseAddr("2001:db8::1"), 17), bgp.NewSRv6InformationSubTLV(netip.MustParseAddr("2001:db8::2"), 18)))
+	}},
+	"attr-prefix-sid-info-flags": {test: "C18_attr", attr: func() bgp.PathAttributeInterface {
+		info := bgp.NewSRv6InformationSubTLV(netip.MustParseAddr("2001:db8::1"), 17)
+		info.Flags = 0x80
+		return bgp.NewPathAttributePrefixSID(bgp.NewSRv6ServiceTLV(bgp.TLVTypeSRv6L3Service, info))
+	}},
+	"attr-mp-reach-no-nexthop": {test: "C18_attr", attr: func() bgp.PathAttributeInterface {
+		a, _ := bgp.NewPathAttributeMpReachNLRI(bgp.RF_OPAQUE, []bgp.PathNLRI{{NLRI: bgp.NewOpaqueNLRI([]byte("k"), []byte("v"))}})
+		return a
+	}},
+	"attr-mp-reach-link-local-afi": {test: "C18_attr", attr: func() bgp.PathAttributeInterface {
+		n, _ := bgp.NewIPAddrPrefix(netip.MustParsePrefix("10.0.0.0/24"))
+		a, _ := bgp.NewPathAttributeMpReachNLRI(bgp.RF_IPv4_UC, []bgp.PathNLRI{{NLRI: n}}, netip.MustParseAddr("2001:db8::1"), netip.MustParseAddr("fe80::1"))
+		return a
+	}},
+	"attr-ls-zero-value-dropped": {test: "C18_attr", attr: func() bgp.PathAttributeInterface {
+		return c18LsAttrOf(bgp.NewLsTLVAdminGroup(c18U32(0)))
+	}},
+	"attr-ls-igp-metric-length": {test: "C18_attr", attr: func() bgp.PathAttributeInterface {
+		return c18LsAttrOf(&bgp.LsTLVIGPMetric{LsTLV: bgp.LsTLV{Type: bgp.LS_TLV_IGP_METRIC, Length: 2}, Metric: 10})
+	}},
+	"attr-ls-adjacency-sid-fields": {test: "C18_attr", attr: func() bgp.PathAttributeInterface {
+		t := bgp.NewLsTLVAdjacencySID(c18U32(100))
+		t.Flags, t.Weight = 0x30, 5 // V and L flags of an IS-IS adjacency SID, weight 5
+		return c18LsAttrOf(t)
+	}},
+	"attr-ls-local-router-id-duplicated": {test: "C18_attr", attr: func() bgp.PathAttributeInterface {
+		a := netip.MustParseAddr("10.0.0.1")
+		return c18LsAttrOf(bgp.NewLsTLVLocalIPv4RouterID(&a))
+	}},
+	"attr-ls-ctor-length": {test: "C18_attr", attr: func() bgp.PathAttributeInterface {
+		a := netip.MustParseAddr("2001:db8::1")
+		t := bgp.NewLsTLVRemoteIPv6RouterID(&a)
+		t.Length = 16 // what the decoder produces
+		return c18LsAttrOf(t)
+	}},
+	"attr-ls-peer-adjacency-sid-type": {test: "C18_attr", attr: func() bgp.PathAttributeInterface {
+		t := bgp.NewLsTLVPeerAdjacencySID(&bgp.LsBgpPeerSegmentSID{Weight: 1, SID: 24000})
+		t.Type = bgp.LS_TLV_PEER_ADJACENCY_SID // what the decoder produces
+		return c18LsAttrOf(t)
+	}},
+	"attr-ls-igp-flags-fabricates-tlvs": {test: "C18_attr", attr: func() bgp.PathAttributeInterface {
+		return c18LsAttrOf(bgp.NewLsTLVIGPFlags(&bgp.LsIGPFlags{Down: true}))
+	}},
+	"attr-ls-prefix-sid-dropped": {test: "C18_attr", attr: func() bgp.PathAttributeInterface {
+		t := bgp.NewLsTLVPrefixSID(c18U32(100))
+		t.Length = 8 // what the decoder produces for a 4 octet index
+		return c18LsAttrOf(t)
+	}},
+	"attr-ls-opaque-prefix-attr-dropped": {test: "C18_attr", attr: func() bgp.PathAttributeInterface {
+		v := []byte{1, 2}
+		t := bgp.NewLsTLVOpaquePrefixAttr(&v)
+		t.Length = 2 // what the decoder produces
+		return c18LsAttrOf(t)
+	}},
+	"attr-ls-flex-algo-dropped": {test: "C18_attr", attr: func() bgp.PathAttributeInterface {
+		return c18LsAttrOf(&bgp.LsTLVFADPrefixMetric{LsTLV: bgp.LsTLV{Type: bgp.LS_TLV_FAD_PREFIX_METRIC, Length: 8}, Algorithm: 128, Metric: 10})
+	}},
+}
+
+// c18RunProbe runs the (unmasked) oracle on the minimal reproducer of a known issue and checks
+// that the shape predicate recognises it.
+func c18RunProbe(key string, st *verifkit.Stats) (f *verifkit.Failure, recognised bool) {
+	p := c18Probes[key]
+	has := func(keys []string) bool {
+		for _, k := range keys {
+			if k == key {
+				return true
+			}
+		}
+		return false
+	}
+	if p.attr != nil {
+		a := p.attr()
+		return c18CheckAttr(a, true, st), has(c18AttrShapes(a))
+	}
+	n := p.nlri()
+	return c18CheckNLRI(p.fam, n, st), has(c18NLRIShapes(p.fam, n))
+}
+
+func init() {
+	for key, p := range c18Probes {
+		key := key
+		verifkit.RegisterProbe(p.test, key, func(st *verifkit.Stats) *verifkit.Failure {
+			f, _ := c18RunProbe(key, st)
+			if f != nil {
+				f.Sig = key
+			}
+			return f
+		})
+	}
+}
+
+// TestVerifC18Probes keeps KnownIssues honest: every key has a note and a minimal reproducer,
+// the reproducer is recognised by the shape predicate, and it fails the oracle as long as the
+// entry is masked (a reproducer that passes means the defect is gone and the mask must go too).
+func TestVerifC18Probes(t *testing.T) {
+	if os.Getenv("VERIF_REPLAY") != "" {
+		t.Skip("replay mode")
+	}
+	keys := make([]string, 0, len(KnownIssues))
+	for k := range KnownIssues {
+		keys = append(keys, k)
+	}
+	sort.Strings(keys)
+	for _, k := range keys {
+		if c18KnownNotes[k] == "" {
+			t.Errorf("known issue %s has no note", k)
+		}
+		if _, ok := c18Probes[k]; !ok {
+			t.Errorf("known issue %s has no minimal reproducer", k)
+			continue
+		}
+		var f *verifkit.Failure
+		var rec bool
+		if g := guard("panic", "probe "+k, func() { f, rec = c18RunProbe(k, verifkit.Scratch("C18")) }); g != nil {
+			t.Errorf("probe %s: %s", k, g.Msg)
+			continue
+		}
+		if !rec {
+			t.Errorf("probe %s: the shape predicate does not recognise the reproducer", k)
+		}
+		switch {
+		case f == nil && KnownIssues[k]:
+			t.Errorf("known issue %s no longer reproduces: set KnownIssues[%q] = false", k, k)
+		case f == nil:
+			t.Logf("known issue %s: fixed", k)
+		default:
+			t.Logf("known issue %s: sig=%s %s", k, f.Sig, f.Msg)
+		}
+	}
+	for k := range c18Probes {
+		if _, ok := KnownIssues[k]; !ok {
+			t.Errorf("probe %s has no KnownIssues entry", k)
+		}
+	}
+}
+
+// ---------------------------------------------------------------------------
+// expected coverage: the concrete types the generators are able to produce
+// ---------------------------------------------------------------------------
+
+func c18Prefixed(prefix string, names ...string) []string {
+	out := make([]string, len(names))
+	for i, n := range names {
+		out[i] = prefix + n
+	}
+	return out
+}
+
+var c18NLRITypeLabels = func() []string {
+	l := c18Prefixed("nlri/", "IPAddrPrefix", "LabeledIPAddrPrefix", "LabeledVPNIPAddrPrefix", "VPLSNLRI", "EVPNNLRI", "RouteTargetMembershipNLRI",
+		"EncapNLRI", "FlowSpecNLRI", "OpaqueNLRI", "LsAddrPrefix", "SRPolicyNLRI", "MUPNLRI")
+	l = append(l, c18Prefixed("nlri/evpn/", "EVPNEthernetAutoDiscoveryRoute", "EVPNMacIPAdvertisementRoute", "EVPNMulticastEthernetTagRoute",
+		"EVPNEthernetSegmentRoute", "EVPNIPPrefixRoute")...)
+	l = append(l, c18Prefixed("nlri/mup/", "MUPInterworkSegmentDiscoveryRoute", "MUPDirectSegmentDiscoveryRoute", "MUPType1SessionTransformedRoute",
+		"MUPType2SessionTransformedRoute")...)
+	l = append(l, c18Prefixed("nlri/mup-tlv/", "MUPSessionParametersTLV", "MUPInterworkEndpointTLV", "MUPSourceAddressTLV", "MUPUnknownTLV")...)
+	l = append(l, c18Prefixed("nlri/ls/", "LsNodeNLRI", "LsLinkNLRI", "LsPrefixV4NLRI", "LsPrefixV6NLRI", "LsSrv6SIDNLRI")...)
+	l = append(l, c18Prefixed("nlri/flowspec/", "FlowSpecDestinationPrefix", "FlowSpecSourcePrefix", "FlowSpecDestinationPrefix6", "FlowSpecSourcePrefix6",
+		"FlowSpecSourceMac", "FlowSpecDestinationMac", "FlowSpecComponent", "FlowSpecUnknown")...)
+	l = append(l, c18Prefixed("nlri/rd/", "RouteDistinguisherTwoOctetAS", "RouteDistinguisherIPAddressAS", "RouteDistinguisherFourOctetAS", "none")...)
+	l = append(l, c18Prefixed("nlri/rtc-rt/", "none", "TwoOctetAsSpecificExtended", "IPv4AddressSpecificExtended", "FourOctetAsSpecificExtended")...)
+	l = append(l, c18Prefixed("nlri/rtc-len/", "0", "32", "96", "partial")...)
+	l = append(l, c18Prefixed("nlri/labels/", "1", "2", "3")...)
+	l = append(l, c18Prefixed("nlri/esi-type/", "0", "1", "2", "3", "4", "5")...)
+	l = append(l, c18Prefixed("nlri/evpn-macip-iplen/", "0", "32", "128")...)
+	l = append(l, c18Prefixed("nlri/evpn-macip-labels/", "1", "2")...)
+	return l
+}()
+
+func c18NLRIExpected() []string {
+	l := append([]string{}, c18NLRITypeLabels...)
+	for _, f := range verifgen.AllFamilies {
+		l = append(l, "family/"+f.String())
+	}
+	return l
+}
+
+func c18AttrExpected() []string {
+	l := append([]string{}, c18NLRITypeLabels...)
+	for k := 0; k < verifgen.NumAttrKinds; k++ {
+		l = append(l, "attr-kind/"+verifgen.AttrName(k))
+	}
+	for _, f := range verifgen.AllFamilies {
+		l = append(l, "attr-kind/mp-reach/"+f.String(), "attr-kind/mp-unreach/"+f.String())
+	}
+	l = append(l, c18Prefixed("attr/", "PathAttributeOrigin", "PathAttributeAsPath", "PathAttributeNextHop", "PathAttributeMultiExitDisc", "PathAttributeLocalPref",
+		"PathAttributeAtomicAggregate", "PathAttributeAggregator", "PathAttributeCommunities", "PathAttributeOriginatorId", "PathAttributeClusterList",
+		"PathAttributeMpReachNLRI", "PathAttributeMpUnreachNLRI", "PathAttributeExtendedCommunities", "PathAttributeAs4Path", "PathAttributeAs4Aggregator",
+		"PathAttributePmsiTunnel", "PathAttributeTunnelEncap", "PathAttributeIP6ExtendedCommunities", "PathAttributeAigp", "PathAttributeLargeCommunities",
+		"PathAttributeLs", "PathAttributePrefixSID", "PathAttributeUnknown")...)
+	l = append(l, "attr/as-path-param/As4PathParam")
+	l = append(l, c18Prefixed("attr/ext-community/", "TwoOctetAsSpecificExtended", "IPv4AddressSpecificExtended", "FourOctetAsSpecificExtended", "OpaqueExtended",
+		"ValidationExtended", "LinkBandwidthExtended", "ColorExtended", "EncapExtended", "DefaultGatewayExtended", "ESILabelExtended", "ESImportRouteTarget",
+		"MacMobilityExtended", "RouterMacExtended", "Layer2AttributesExtended", "ETreeExtended", "MulticastFlagsExtended", "TrafficRateExtended",
+		"TrafficActionExtended", "RedirectTwoOctetAsSpecificExtended", "RedirectIPv4AddressSpecificExtended", "RedirectFourOctetAsSpecificExtended",
+		"TrafficRemarkExtended", "MUPExtended", "MUPIPv4AddressSpecificExtended", "MUPFourOctetAsSpecificExtended", "VPLSExtended", "UnknownExtended")...)
+	l = append(l, c18Prefixed("attr/ip6-ext-community/", "IPv6AddressSpecificExtended", "RedirectIPv6AddressSpecificExtended", "UnknownIP6Extended")...)
+	l = append(l, c18Prefixed("attr/tunnel-sub-tlv/", "TunnelEncapSubTLVColor", "TunnelEncapSubTLVEncapsulation", "TunnelEncapSubTLVProtocol",
+		"TunnelEncapSubTLVEgressEndpoint", "TunnelEncapSubTLVUDPDestPort", "TunnelEncapSubTLVSRPreference", "TunnelEncapSubTLVSRPriority",
+		"TunnelEncapSubTLVSRCandidatePathName", "TunnelEncapSubTLVSRENLP", "TunnelEncapSubTLVSRBSID", "TunnelEncapSubTLVSRSegmentList", "TunnelEncapSubTLVUnknown")...)
+	l = append(l, c18Prefixed("attr/tunnel-segment/", "SegmentTypeA", "SegmentTypeB")...)
+	l = append(l, c18Prefixed("attr/pmsi-id/", "IngressReplTunnelID", "DefaultPmsiTunnelID")...)
+	l = append(l, c18Prefixed("attr/aigp-tlv/", "AigpTLVIgpMetric", "AigpTLVDefault")...)
+	l = append(l, "attr/prefix-sid-tlv/SRv6ServiceTLV", "attr/prefix-sid-service-type/5", "attr/prefix-sid-service-type/6")
+	l = append(l, c18Prefixed("attr/ls-tlv/", "LsTLVNodeFlagBits", "LsTLVOpaqueNodeAttr", "LsTLVNodeName", "LsTLVIsisArea", "LsTLVLocalIPv4RouterID",
+		"LsTLVLocalIPv6RouterID", "LsTLVSrCapabilities", "LsTLVSrAlgorithm", "LsTLVSrLocalBlock", "LsTLVLinkName", "LsTLVRemoteIPv4RouterID",
+		"LsTLVRemoteIPv6RouterID", "LsTLVAdminGroup", "LsTLVTEDefaultMetric", "LsTLVUnidirectionalLinkDelay", "LsTLVMinMaxUnidirectionalLinkDelay",
+		"LsTLVUnidirectionalDelayVariation", "LsTLVIGPMetric", "LsTLVOpaqueLinkAttr", "LsTLVMaxLinkBw", "LsTLVMaxReservableLinkBw", "LsTLVUnreservedBw",
+		"LsTLVSrlg", "LsTLVAdjacencySID", "LsTLVSrv6EndXSID", "LsTLVIGPFlags", "LsTLVOpaquePrefixAttr", "LsTLVPrefixSID", "LsTLVPeerNodeSID",
+		"LsTLVPeerAdjacencySID", "LsTLVPeerSetSID", "LsTLVSrv6SIDStructure", "LsTLVSrv6BgpPeerNodeSID", "LsTLVSrv6EndpointBehavior", "LsTLVFlexAlgoDef",
+		"LsTLVFADPrefixMetric")...)
+	return l
+}
+
+func c18CapExpected() []string {
+	l := c18Prefixed("cap/", "CapMultiProtocol", "CapRouteRefresh", "CapExtendedMessage", "CapCarryingLabelInfo", "CapExtendedNexthop", "CapGracefulRestart",
+		"CapFourOctetASNumber", "CapAddPath", "CapEnhancedRouteRefresh", "CapRouteRefreshCisco", "CapLongLivedGracefulRestart", "CapFQDN",
+		"CapSoftwareVersion", "CapUnknown")
+	for k := 0; k < verifgen.NumCapKinds; k++ {
+		l = append(l, "cap-kind/"+verifgen.CapName(k))
+	}
+	return l
+}
 
 var c18Epoch = time.Unix(1700000000, 0)
